@@ -1303,6 +1303,42 @@ def balanced_cert_lines(rng, count, maxnodes=40):
     return out
 
 
+def camion_cert_lines(rng, count, maxnodes=30):
+    """cases of the `camion_cert` api: M has the support of a certified totally unimodular matrix N (network matrix with its
+    digraph, or series-parallel) and is N itself, a row/column scaling of N (still TU), or N with some signs flipped (mostly not
+    TU); by Camion's theorem the signed output must be a scaling of N and the test must say yes exactly for scalings"""
+    import vlib
+    out = []
+    for i in range(count):
+        if i % 3 == 2:
+            N = permute(rng, add_sp_lines(rng, [[rng.choice([1, -1])]], 3 + rng.below(30), True))
+            w = "0"
+        else:
+            nv = 3 + rng.below(6) if i % 2 else 6 + rng.below(maxnodes - 5)
+            N, w = graph_instance(rng, nv, nv + rng.below(nv + 3), True)
+        if not N or not N[0]:
+            continue
+        m, n = len(N), len(N[0])
+        k = rng.below(4)
+        M = [r[:] for r in N]
+        if k == 1 or k == 3:
+            rs = [rng.choice([1, -1]) for _ in range(m)]
+            cs = [rng.choice([1, -1]) for _ in range(n)]
+            M = [[rs[a] * cs[b] * M[a][b] for b in range(n)] for a in range(m)]
+        if k >= 2:
+            nz = [(a, b) for a in range(m) for b in range(n) if M[a][b] != 0]
+            for (a, b) in rng.shuffle(nz)[:1 + rng.below(3)]:
+                M[a][b] = -M[a][b]
+        out.append("%s %s %s" % (vlib.mat_line(M), vlib.mat_line(N), w))
+    return out
+
+
+CAMION_CERT_CODES = {1: "malformed record", 470: "a call failed on a matrix with certified regular support",
+                     471: "the signed output is not a row/column scaling of the certified totally unimodular matrix (so it is not TU)",
+                     472: "signedness test says no for a totally unimodular matrix (a scaling of the certified one)",
+                     473: "signedness test says yes although the matrix is not a scaling of the certified one (so it is not TU)"}
+
+
 BALANCED_CERT_CODES = {1: "malformed record", 460: "CMRbalancedTest failed on a certified totally unimodular matrix",
                        461: "verdict not written", 462: "a totally unimodular matrix (certified) is reported not balanced",
                        463: "a violating submatrix is returned for a totally unimodular matrix"}
